@@ -435,6 +435,7 @@ def gen_stdp(rng, trainer=None, signs=None):
         vals = [1.0, -2.0, 0.5, 0.0, -0.75, 1.3, -0.4, 2.25]
         if rng.random() < 0.5:
             case["signal"] = [rng.choice(vals) for _ in range(T)]
+            case["signal_numpy"] = rng.random() < 0.3          # the scalar reward handed over as a numpy float64
         else:
             case["signal"] = [[rng.choice(vals) for _ in range(B)] for _ in range(T)]
             if rng.random() < 0.7:
@@ -757,6 +758,7 @@ def gen_stdp_group(rng, gid, trainer, signs):
         c["pre"] = [[[int(rng.random() < p) for _ in range(n_in)] for _ in range(B)] for _ in range(T)]
         c["post"] = [[[int(rng.random() < p) for _ in range(n_out)] for _ in range(B)] for _ in range(T)]
         c["signal"], c["scale"] = base["signal"], base["scale"]
+        c["signal_numpy"] = bool(base.get("signal_numpy"))
         hp = dict(defaults["hp"])
         c.update(mode=defaults["mode"], delayed=defaults["delayed"], reduction=defaults["reduction"])
         allowed = STDP_KEYS[trainer]
@@ -848,7 +850,8 @@ def gen_stdp_biclique(rng, gid, trainer, signs, q):
     cells = []
     for (i, j) in ((0, 0), (0, 1), (1, 0), (1, 1)):
         c = {"kind": "stdp", "trainer": trainer, "dt": dt, "B": B, "post": posts[j], "signal": base["signal"], "scale": base["scale"],
-             "bic": [i, j], "layout": "biclique", "differs": {"sharing_neuron": k1, "sharing_connection": k2}}
+             "bic": [i, j], "layout": "biclique", "differs": {"sharing_neuron": k1, "sharing_connection": k2},
+             "signal_numpy": bool(base.get("signal_numpy"))}
         c.update(conns[i])
         c.update(grid[(i, j)])
         c.update(group=gid, family="stdp", defaults=defaults)
